@@ -19,7 +19,7 @@ def run(tier, seed):
                            "nonlinear": True})
             mixed = [o for o in p["ops"] if o["op"] == "strat" and o.get("mix") is not None]
             for j, o in enumerate(mixed):
-                lit = [[e if isinstance(e, str) else "3/8" for e in row] for row in o["mix"]]
+                lit = [[(e if g.rng.random() < 0.5 else "1") if isinstance(e, str) else "3/8" for e in row] for row in o["mix"]]
                 if (j + len(progs) // 2) % 2 == 0:
                     lit[0][0] = {"p": "kappa"}
                     if len(lit) > 1:
@@ -27,6 +27,16 @@ def run(tier, seed):
                 o["mix"] = lit
         else:
             p = g.program({"requests": g.rng.random() < 0.6, "nsteps": g.rng.choice([1, 2]), "nstrat": g.rng.choice([0, 1, 2])})
+        if g.rng.random() < 0.35:
+            # list-valued function arguments that mix whole-number literals with parameters
+            pname = g.rng.choice(["beta", "gamma", "kappa", "mu"])
+            fn = g.rng.choice([{"pw": ["t", ["1", "3"], ["0", {"p": pname}, "0"]]},
+                               {"lin": ["t", ["0", "2", "4"], ["1", {"p": pname}, "2"]]},
+                               {"pw": ["t", ["2"], [{"*": [{"p": pname}, "2"]}, "1"]]}])
+            at = max(i for i, o in enumerate(p["ops"]) if o["op"] in ("flow", "udeath", "pop")) + 1
+            first_strat = min([i for i, o in enumerate(p["ops"]) if o["op"] == "strat"] + [len(p["ops"])])
+            p["ops"].insert(min(at, first_strat), {"op": "flow", "kind": "importation", "name": "pulse", "param": fn,
+                                                   "dst": p["comps"][0], "split": False})
         used = sorted(_o.params_in(p["ops"], set()))
         if not used or len(used) > 4:
             continue
